@@ -265,4 +265,54 @@ func genC02(c *Ctx) {
 		}
 		return strings.Join([]string{r0, errClass(e1), errClass(e2), errClass(e3), errClass(e4), errClass(e5), errClass(e6), errClass(e7), errClass(e8)}, " ")
 	}))
+	genManyMessagesCancelling(c, "C02")
+}
+
+// genManyMessagesCancelling: aggregate verification with 9 to 20 distinct messages and more distinct keys than messages
+// (the per-message path, several batches of pairings), where the keys listed for one to six of the messages cancel
+// (pk and -pk on one message: that message's aggregated key is the point at infinity and its pairing is skipped). Which
+// position the skipped pairing takes depends on map order, so every shape is verified many times. The honest
+// aggregate must verify; with one share missing it must not.
+func genManyMessagesCancelling(c *Ctx, prop string) {
+	h := crypto.NewExpandMsgXOFKMAC128("cancelling")
+	for _, nm := range []int{9, 10, 16, 17, 20} {
+		for _, ncancel := range []int{1, 2, 6} {
+			var es []manyEntry
+			var sigs []crypto.Signature
+			for m := 0; m < nm; m++ {
+				msg := []byte(fmt.Sprintf("message %d of %d", m, nm))
+				k := c.randScalar()
+				ks := []*big.Int{k, c.randScalar()}
+				if m < ncancel {
+					ks = []*big.Int{k, new(big.Int).Sub(blsR, k)} // the two keys of this message cancel
+				}
+				for _, kk := range ks {
+					sk := skFromInt(kk)
+					sg, _ := sk.Sign(msg, h)
+					es = append(es, manyEntry{kk, sk.PublicKey(), msg, h})
+					sigs = append(sigs, sg)
+				}
+			}
+			agg, _ := crypto.AggregateBLSSignatures(sigs)
+			short, _ := crypto.AggregateBLSSignatures(sigs[:len(sigs)-1])
+			pks := make([]crypto.PublicKey, len(es))
+			msgs := make([][]byte, len(es))
+			hs := make([]hash.Hasher, len(es))
+			for i, e := range es {
+				pks[i], msgs[i], hs[i] = e.pk, e.msg, e.h
+			}
+			verdict := guard(func() string {
+				for rep := 0; rep < 24; rep++ {
+					if ok, err := crypto.VerifyBLSSignatureManyMessages(pks, agg, msgs, hs); err != nil || !ok {
+						return fmt.Sprintf("honest-aggregate-rejected repetition %d", rep)
+					}
+					if ok, _ := crypto.VerifyBLSSignatureManyMessages(pks, short, msgs, hs); ok {
+						return fmt.Sprintf("aggregate-with-a-share-missing-accepted repetition %d", rep)
+					}
+				}
+				return "ok"
+			})
+			c.Case("many-messages-cancelling-keys", fmt.Sprintf("expect ok #%s %d messages %d cancelling", prop, nm, ncancel), verdict)
+		}
+	}
 }
